@@ -163,6 +163,32 @@ func (r *Run) addOblQuery(res string) {
 	}
 	r.mu.Unlock()
 }
+var forkCount = map[string]int{}
+
+func (r *Run) countFork(site string) {
+	r.mu.Lock()
+	forkCount[site]++
+	r.mu.Unlock()
+}
+
+func printForkStats() {
+	type kv struct {
+		k string
+		v int
+	}
+	var xs []kv
+	for k, v := range forkCount {
+		xs = append(xs, kv{k, v})
+	}
+	sort.Slice(xs, func(i, j int) bool { return xs[i].v > xs[j].v })
+	for i, x := range xs {
+		if i >= 25 {
+			break
+		}
+		fmt.Fprintf(os.Stderr, "  forks %6d  %s\n", x.v, x.k)
+	}
+}
+
 func (r *Run) note(s string) {
 	r.mu.Lock()
 	r.notes[s] = true
@@ -315,6 +341,9 @@ func (r *Run) Explore() {
 		}(w)
 	}
 	wg.Wait()
+	if forkStats {
+		printForkStats()
+	}
 }
 
 func (r *Run) runPath(sol *Solver, prefix []int) {
